@@ -15,6 +15,11 @@ Observations: `lang`/`new` → `h<handle>=m<allocation class>/s<strong count>`; 
 `<construct event or nothing>><ok:serial/ty/lang/arg/x | err:ty/lang/arg/attempt>` | `dead`; `conc` →
 `<results of thread 0>|<thread 1>|…#<construct events in order>#ovl=<overlapping critical sections>`.
 
+`get` with `x = 777` (`seq`, handles from `lang:` only – anything else is `bad-op`, as in the harness): the callback
+calls `get_for_lang` for its own language while the lookup is active; run as `MOp.lookupReenter`, the callback
+result gets the suffix `+same` / `+OTHER-MEMOIZER` from the observation's flag (`FluentProofs/MemoReenter.lean`
+proves it is `+same` on these handles).
+
 The concrete instance of the external world (the harness implements the same in Rust): formatter types `A`, `B`
 (never fail) and `F` (argument `<hex>.<n>`: fails while fewer than `n` constructions of this (lang, args) were
 attempted; `n = 9`: always fails).  Instances carry a serial number handed out by successful constructions.
@@ -56,16 +61,18 @@ def ext : Ext World String String String Inst String := { construct := construct
 
 abbrev DOp := Op World String String Inst String
 
-def mkOp (ty arg x : String) : DOp :=
+/-- `x = 666`: the callback panics; the caller catches the panic and prints `CBPANIC` (the formatter constructed for
+this lookup was inserted BEFORE the callback ran, so it stays cached).
+`x = 777`: the callback calls `get_for_lang` for its own language while the lookup is active and reports
+`+same` / `+OTHER-MEMOIZER`.  That part of the callback is not in `cb` (a callback cannot reach the per-language
+table): `seq` histories run such a lookup as `MOp.lookupReenter` and `showObs` appends what the model observed.
+`noCtx`: lookups of the `conc` payload run on threads that have no `IntlMemoizer` to ask (the harness callback
+finds no context there and says so). -/
+def mkOp (ty arg x : String) (noCtx : Bool := false) : DOp :=
   { ty := ty, args := arg
-    -- x = 666: the callback panics; the caller catches the panic and prints `CBPANIC` (the formatter constructed
-    -- for this lookup was inserted BEFORE the callback ran, so it stays cached)
-    -- x = 777: the callback calls `get_for_lang` for its own language while the lookup is active; the handle the lookup
-    -- runs on is alive, so the per-language table hands out the SAME memoizer (`MemoIntl`: shared while a handle is
-    -- alive) and nothing changes: the callback reports `+same`
     cb := fun i w => (if x == "666" then "CBPANIC"
                       else toString i.serial ++ "/" ++ i.ty ++ "/" ++ i.lang ++ "/" ++ i.arg ++ "/" ++ x
-                           ++ (if x == "777" then "+same" else ""), w) }
+                           ++ (if noCtx && x == "777" then "+no-context" else ""), w) }
 
 def isHexTok (s : String) : Bool := (hexDecode s).isSome
 
@@ -85,8 +92,8 @@ def canonNat (s : String) : Option Nat :=
 def validLang (l : String) : Bool :=
   ["en", "en-US", "pl", "fr-CA", "de", "und", "ca", "ca-valencia", "de-1901", "de-1996"].contains l
 
-def parseLookup (ty arg x via : String) : Option DOp :=
-  if validArg ty arg && (canonNat x).isSome && (via == "d" || via == "k") then some (mkOp ty arg x) else none
+def parseLookup (ty arg x via : String) (noCtx : Bool := false) : Option DOp :=
+  if validArg ty arg && (canonNat x).isSome && (via == "d" || via == "k") then some (mkOp ty arg x noCtx) else none
 
 def showEvent (e : Event String String String Inst String) : String :=
   e.ty ++ "/" ++ e.lang ++ "/" ++ e.args ++ "=" ++
@@ -104,6 +111,12 @@ def showObs : MObs String String String Inst String String → String
   | .dead => "dead"
   | .dangling => "dangling"
   | .res out ev => (match ev with | some e => showEvent e | none => "") ++ ">" ++ showOutcome out
+  -- the re-entrant callback's verdict is part of the callback result (nothing when the callback never ran)
+  | .resReenter out ev same => (match ev with | some e => showEvent e | none => "") ++ ">" ++ showOutcome out ++
+      (match same with
+       | some true => "+same"
+       | some false => "+OTHER-MEMOIZER"
+       | none => "")
 
 abbrev DMOp := MOp World String String String Inst String
 
@@ -114,12 +127,15 @@ def parseMOp (conc : Bool) (op : String) : Option DMOp :=
   | ["drop", h] => (canonNat h).map fun n => .drop n
   | ["get", h, ty, arg, x, via] =>
     if conc && x == "666" then none else     -- a panicking callback would poison the concurrent memoizer's mutex
+    if conc && x == "777" then none else     -- the re-entrant callback is defined for `Rc` handles only
     match canonNat h, parseLookup ty arg x via with
-    | some n, some o => some (.lookup n o)
+    | some n, some o => some (if x == "777" then .lookupReenter n o else .lookup n o)
     | _, _ => none
   | _ => none
 
-/-- handles handed out by `lang:` (get_for_lang), by index: only those may run the re-entrant callback `x = 777` -/
+/-- handles handed out by `lang:` (get_for_lang), by index: only those may run the re-entrant callback `x = 777`
+(the harness knows the language to ask for only for those; the model itself – `MOp.lookupReenter` – is defined for
+every handle, and for a `new:` handle it would report `+OTHER-MEMOIZER`) -/
 def originOf (ops : List String) : List Bool :=
   ops.filterMap fun op =>
     match op.splitOn ":" with
@@ -155,7 +171,7 @@ def parseProg (p : String) : Option (List DOp) :=
   if p == "-" then some [] else
   (p.splitOn ",").mapM fun o =>
     match o.splitOn ":" with
-    | [ty, arg, x, via] => parseLookup ty arg x via
+    | [ty, arg, x, via] => parseLookup ty arg x via true
     | _ => none
 
 def parseSched (s : String) : Option (List Nat) :=
